@@ -30,10 +30,13 @@ def gen_tamper(rng, chain, recs):
     deep = [f for f in files if "/build/" in f or f.startswith("vendor/") or "vendor/" in f]
     if deep and rng.random() < 0.5:
         files = deep        # places where a recorder that prunes or strips too much would look away
-    kind = rng.choice(["edit", "add", "delete", "rename", "rewrite_same", "uncovered", "delete_all"])
-    if kind in ("edit", "delete", "rename", "rewrite_same", "delete_all") and not files:
+    kind = rng.choice(["edit", "add", "delete", "rename", "rewrite_same", "uncovered", "delete_all", "line_endings"])
+    if kind in ("edit", "delete", "rename", "rewrite_same", "delete_all", "line_endings") and not files:
         kind = "add"
-    if kind == "delete_all":
+    if kind == "line_endings":
+        # only the line-ending bytes of a covered file change: a tamper unless the recording normalises line endings
+        ops = [["crlf", rng.choice(files)]]
+    elif kind == "delete_all":
         ops = [["delete", f] for f in files]           # nothing covered is left: only REQUIRE can notice
     elif kind == "edit":
         ops = [["modify", rng.choice(files), "tampered"]]
@@ -107,7 +110,8 @@ def run(ctx):
         layout = ch.derive_layout(ctx.rng, chain, recs, family)
         layout_md = ch.sign_layout(layout, owner, dsse=ctx.rng.random() < 0.3)
         rows = [row for r in recs for row in r["sig_rows"]]
-        out, vreq = ch.verify_chain(ctx, layout_md, owner, project, linkdir, rows)
+        params = {} if i % 3 == 0 else None      # an empty parameter set: substitution must be the identity
+        out, vreq = ch.verify_chain(ctx, layout_md, owner, project, linkdir, rows, params=params)
         vreqs.append(("verify", vreq)); expect.append(["accept", out]); meta.append((chain, family, None))
         # tampered re-runs of the same chain under the same (honest) layout
         for _ in range(2 if not ctx.thorough() else 3):
@@ -125,7 +129,7 @@ def run(ctx):
                 extra = tamper_link(ctx.rng, tlinkdir, chain, trecs, tam[1], tam[2])
                 final_record = None
             trows = [row for r in trecs for row in r["sig_rows"]] + extra
-            tout, treq = ch.verify_chain(ctx, layout_md, owner, tproject, tlinkdir, trows)
+            tout, treq = ch.verify_chain(ctx, layout_md, owner, tproject, tlinkdir, trows, params=params)
             label = tam[3] if tam[0] == "tree" else "link_" + tam[2]
             dist["kinds"][label] = dist["kinds"].get(label, 0) + 1
             holder = {"final_record": final_record}
